@@ -13,6 +13,7 @@ import (
 	"context"
 	"encoding/json"
 	"fmt"
+	"github.com/ozontech/seq-db/conf"
 	"os"
 	"strings"
 	"testing"
@@ -54,10 +55,10 @@ var c12Lexemes = []string{
 }
 
 type c12Job struct {
-	Len    int   `json:"len"`
-	Lo     int64 `json:"lo"`
-	Hi     int64 `json:"hi"`
-	Fixed  []int `json:"fixed,omitempty"` // fixed prefix of lexeme indexes (the enumeration covers the remaining positions)
+	Len   int   `json:"len"`
+	Lo    int64 `json:"lo"`
+	Hi    int64 `json:"hi"`
+	Fixed []int `json:"fixed,omitempty"` // fixed prefix of lexeme indexes (the enumeration covers the remaining positions)
 	// Deep != "": one deeply nested query "<shape>:<n>:<parser>" (shape paren | not) instead of an enumeration
 	Deep string `json:"deep,omitempty"`
 }
@@ -439,7 +440,6 @@ func c12Trees(leaves int, fn func(*bnode)) {
 	}
 }
 
-
 func c12StoreLanguages(r *vlib.Run) {
 	mk := func() (*storeapi.Store, pb.StoreApiClient, string) {
 		dir := vfrac.MkTmp("c12s")
@@ -464,7 +464,10 @@ func c12StoreLanguages(r *vlib.Run) {
 	}
 	texts := []string{`k:'a'`, `k:a#b`, `k:"a\tb"`, `k:a`, `k:A`, `k:a OR k:A`}
 	ask := func(cl pb.StoreApiClient, q, lang string) string {
-		ctx := metadata.NewIncomingContext(context.Background(), metadata.Pairs("use-seq-ql", map[string]string{"seqql": "true", "legacy": "false"}[lang]))
+		ctx := context.Background()
+		if lang != "default" { // "default": no header, the store's configured default language decides
+			ctx = metadata.NewIncomingContext(ctx, metadata.Pairs("use-seq-ql", map[string]string{"seqql": "true", "legacy": "false"}[lang]))
+		}
 		resp, err := cl.Search(ctx, &pb.SearchRequest{Query: q, From: 0, To: int64(vfrac.MaxMID), Size: 100, WithTotal: true})
 		if err != nil {
 			return "error"
@@ -500,6 +503,21 @@ func c12StoreLanguages(r *vlib.Run) {
 					fmt.Sprintf("round %d: got %s, a store that only ever saw %s answers %s", round, got, lang, want))
 			}
 		}
+		// the language named by the request wins over the store's configured default; without a header the default decides
+		oldDef := conf.UseSeqQLByDefault
+		for _, def := range []bool{false, true} {
+			conf.UseSeqQLByDefault = def
+			for _, lang := range []string{"legacy", "seqql", "default"} {
+				r.Add("evaluations", 1)
+				r.Add("meaning_cases", 1)
+				want := map[string]string{"legacy": wantL, "seqql": wantS, "default": map[bool]string{false: wantL, true: wantS}[def]}[lang]
+				if got := ask(clM, q, lang); got != want {
+					r.Violation(fmt.Sprintf("store query entry: %q with header=%s under use-seq-ql-by-default=%v is read in the wrong language", q, lang, def), c12Case{Kind: "store-language", Input: q, Parser: lang},
+						fmt.Sprintf("got %s, want %s (legacy reading %s, SeqQL reading %s)", got, want, wantL, wantS))
+				}
+			}
+		}
+		conf.UseSeqQLByDefault = oldDef
 		if wantL != wantS {
 			r.Distinct("nontrivial", "store-language|"+q)
 		}
